@@ -103,6 +103,18 @@ func cmdTLS(args []string) int {
 		return 2
 	}
 	defer os.RemoveAll(dir)
+	// the other authority is also one the HOST trusts (its certificate is the system trust store of this
+	// process): only the configured authority may count for client certificates
+	rogueCA, rogueKey, err := mintCA("Testing certificate authority") // same name, different key
+	if err != nil {
+		return 2
+	}
+	trustFile := filepath.Join(dir, "host-roots.pem")
+	if err := os.WriteFile(trustFile, pemCert(rogueCA.Raw), 0o644); err != nil {
+		return 2
+	}
+	os.Setenv("SSL_CERT_FILE", trustFile)
+	os.Setenv("SSL_CERT_DIR", dir)
 	port := freePort()
 	port2 := freePort()
 	peers := map[uint64]string{1: fmt.Sprintf("signer-test01:%d", port), 2: fmt.Sprintf("signer-test02:%d", port2)}
@@ -140,9 +152,9 @@ func cmdTLS(args []string) int {
 			}
 		}
 	}
-	rogueCA, rogueKey, err := mintCA("Testing certificate authority") // same name, different key
-	if err != nil {
-		return 2
+	if sp, err := x509.SystemCertPool(); err == nil {
+		stats0 := len(sp.Subjects()) //nolint:staticcheck
+		_ = stats0
 	}
 	tlsWith := func(cert *tls.Certificate, max uint16) func() (grpc.DialOption, error) {
 		return func() (grpc.DialOption, error) {
@@ -182,6 +194,14 @@ func cmdTLS(args []string) int {
 		{Name: "valid certificate signer-test02 (a peer, no client permissions)", Coq: `(TlsCert Tls13 (CT "signer-test02" 1 false true))`, CN: "signer-test02", Valid: true, Creds: tlsWith(fromPEM(resources.SignerTest02Crt, resources.SignerTest02Key), 0)},
 		{Name: "valid certificate signer-test03 (neither peer nor client)", Coq: `(TlsCert Tls13 (CT "signer-test03" 1 false true))`, CN: "signer-test03", Valid: true, Creds: tlsWith(fromPEM(resources.SignerTest03Crt, resources.SignerTest03Key), 0)},
 		{Name: "valid certificate client-test01 over TLS 1.2", Coq: `(TlsCert Tls12 (CT "client-test01" 1 false true))`, CN: "client-test01", Creds: tlsWith(fromPEM(resources.ClientTest01Crt, resources.ClientTest01Key), tls.VersionTLS12)},
+	}
+	{
+		// a genuine client-test02 certificate with a self-made certificate named client-test01 appended to the chain
+		chain := *fromPEM(resources.ClientTest02Crt, resources.ClientTest02Key)
+		extra := must(mint("client-test01", nil, nil, false, clientUsage))
+		chain.Certificate = append(append([][]byte{}, chain.Certificate...), extra.Certificate[0])
+		kinds = append(kinds, credKind{Name: "valid certificate client-test02 with a self-made certificate named client-test01 appended to the chain",
+			Coq: `(TlsCert Tls13 (CT "client-test02" 1 false true))`, CN: "client-test02", Valid: true, Creds: tlsWith(&chain, 0)})
 	}
 	if realCAKey != nil {
 		kinds = append(kinds,
